@@ -447,6 +447,21 @@ def standard_main(prop, tier, props_file, build_cases, rule, assumptions, worker
 def std_replay(path):
     with open(path) as f:
         rec = json.load(f)
+    if rec.get('case_pickle'):
+        # re-evaluate the stored stream case against a scanner generated by flex rebuilt from /repo
+        import base64, pickle, streamprog
+        from common import Scratch, build_flex
+        case = pickle.loads(base64.b64decode(rec['case_pickle']))
+        with Scratch("replay") as scratch:
+            flex = build_flex(scratch)
+            res = streamprog.eval_stream_case(flex, scratch.sub("w"), case)
+            print(res.get('text', ''))
+            for kind, msg in res['problems']:
+                print("PROBLEM %s: %s" % (kind, msg[:2000]))
+            for t in res.get('traces', []):
+                print("real :", t['real'])
+                print("model:", t['model'])
+            return 1 if [p for p in res['problems'] if p[0] != 'inconclusive'] else 0
     print(json.dumps({k: rec.get(k) for k in rec if k != 'spec'}, indent=1, default=str))
     print(rec.get('spec', ''))
     return 0
@@ -484,11 +499,17 @@ def judge_stream(ck, flex, scratch, cases, results, stats):
         key = "%s:%s" % (kind, hashlib.sha256((c['text'] + str(c.get('sources'))).encode()).hexdigest()[:10])
         if kind == 'event-mismatch':
             allops = [o[0] for ops in list(c.get('acts', {}).values()) for o in ops]
-            if 'array' in (c.get('extra_options') or []) and 'more' in allops and 'less' in allops:
-                key = "array-yyless-after-yymore"      # KNOWN_FINDINGS.json: identified by %array + yymore + yyless
+            fd = (r.get('first_diff') or [None])[0]
+            is_array = 'array' in (c.get('extra_options') or []) and c['backend'] != 'cxx'     # the C++ class overrides %array
+            if (not is_array and 'more' in allops and fd and fd['nsources'] > 1
+                    and fd['real'] and fd['model'] and fd['real'][0] == 'T' and fd['model'][0] == 'T'
+                    and fd['real'][1] == fd['model'][1] and fd['real'][2] < fd['model'][2]):
+                # KNOWN_FINDINGS.json: %pointer + yymore + a later source supplied by yywrap, token shorter than documented
+                key = "pointer-yymore-prefix-lost-at-yywrap"
         ck.violation(key, "%s: %s" % (what, msg[:400]),
                      {'spec': c['text'], 'flex_opts': c['flex_opts'], 'backend': c['backend'], 'focus': c.get('focus'),
                       'cc_extra': c.get('cc_extra'),
+                      'case_pickle': __import__('base64').b64encode(__import__('pickle').dumps(c)).decode(),
                       'sources_hex': [[bytes(w).hex() for w in src] for src in c.get('sources', [])][:3],
                       'detail': [list(p) for p in probs[:3]],
                       'correspondence': 'coq/Stream.v (sm_run, extracted) vs compiled scanner' if noinput else None,
